@@ -3,7 +3,7 @@
 From Coq Require Import List NArith Bool.
 Import ListNotations.
 From TV Require Import Lib.Obs C18.Model C14.Utf8 C14.Utf8Proofs C14.Model C14.Run C14.Peer
-  C14.ProofsCodec C14.ProofsRecv C14.ProofsReasm C14.ProofsMain C14.ProofsE2E C14.ProofsClose.
+  C14.ProofsCodec C14.ProofsRecv C14.ProofsReasm C14.ProofsMain C14.ProofsE2E C14.ProofsClose C14.Ref C14.ProofsP4 C14.ProofsP4Send.
 Local Open Scope N_scope.
 
 (* (RT) The frame decoder inverts the encoder: every payload length below 2^64 (7-bit,
@@ -179,3 +179,45 @@ Print Assumptions C14_lenient_decoder_agrees_on_valid_utf8.
 Theorem C14_check_accepts_model_negotiation : forall a, check_case (CNeg a) (run_case (CNeg a)) = true.
 Proof. exact check_accepts_model_neg. Qed.
 Print Assumptions C14_check_accepts_model_negotiation.
+
+(* Phase 4 - checker soundness for the receive direction.
+   The reference decoder (C14/Ref.v) is independent of the receive loop: it first parses ALL
+   frames of the byte stream with the pure codec, then walks the frame list RFC-style
+   (reassembly, RSV / control-frame / continuation / opcode / size / UTF-8 / inflate rules).
+   For EVERY inflater, configuration and byte stream, whatever it decides holds of the model's
+   receive loop: the deliveries, and whether the connection is up, aborted, closed by a close
+   frame, or stuck in an incomplete frame. *)
+Theorem C14_reference_decoder_sound :
+  forall ist z_inflate decomp max key eof (z0 : ist) w,
+    agrees ist eof
+      (recv_wire ist z_inflate {| r_decomp := decomp; r_max := max; r_key := key |} eof (rinit z0) w)
+      (ref_decode ist z_inflate decomp max z0 w).
+Proof. exact ref_decode_sound. Qed.
+Print Assumptions C14_reference_decoder_sound.
+
+(* check_case now computes the expectation of a receive case from the input bytes with that
+   reference.  It accepts the model on EVERY receive case without a declared expectation
+   (any bytes, any tape, any configuration) ... *)
+Theorem C14_check_accepts_model_recv_any :
+  forall decomp max key eof wire tape,
+    check_case (CRecv decomp max key eof wire tape None) (run_case (CRecv decomp max key eof wire tape None)) = true.
+Proof. exact check_recv_model_any. Qed.
+Print Assumptions C14_check_accepts_model_recv_any.
+
+(* ... and with a declared expectation the only way it can reject the model is an expectation
+   that differs from what the reference computes (an input-only condition); the reference is
+   undecided only when the replay tape has no answer for an inflate call. *)
+Theorem C14_check_accepts_model_recv :
+  forall decomp max key eof wire tape expect,
+    ref_decode itape tape_inflate decomp max tape (expand wire) <> RUnknown ->
+    check_case (CRecv decomp max key eof wire tape expect) (run_case (CRecv decomp max key eof wire tape expect))
+    = expect_consistent decomp max tape (expand wire) expect.
+Proof. exact check_recv_model. Qed.
+Print Assumptions C14_check_accepts_model_recv.
+
+(* ... and on EVERY sender case (any messages, keys, configuration and replay tape): each frame
+   the model writes decodes, with the pure codec, to the one final data frame the checker asks for. *)
+Theorem C14_check_accepts_model_send :
+  forall mask comp msgs tape, check_case (CSend mask comp msgs tape) (run_case (CSend mask comp msgs tape)) = true.
+Proof. exact check_send_model. Qed.
+Print Assumptions C14_check_accepts_model_send.
